@@ -52,18 +52,17 @@ Qed.
 Theorem init_config_spec q preset reps E :
   lookup preset presets = Some reps ->
   struct_r (analyse E) = true ->
-  q_missing_by_raw_key q = false \/ spelling_ok E = true ->
   q_append_to_flow_root q = false \/ is_block E = true ->
   q_insert_mid_entry q = false \/ marker_ok E = true ->
   let R := result_file E (init_config q preset E) in
   spec_ok reps E R (result_file R (init_config q preset R)) = true.
 Proof.
-  intros Hl Hs Hq1 Hq2 Hq3. pose proof (preset_lookup_ok _ _ Hl) as Hok. cbv zeta.
+  intros Hl Hs Hq2 Hq3. pose proof (preset_lookup_ok _ _ Hl) as Hok. cbv zeta.
   unfold init_config. rewrite Hl. unfold init_with.
   destruct (analyse E) as [es|ks|] eqn:HE; [| |discriminate Hs].
   - (* block document *)
     assert (Hag : agree q (map ekey es)).
-    { apply agree_intro; [exact sections_distinct_ok|]. unfold spelling_ok in Hq1. now rewrite HE in Hq1. }
+    { apply agree_intro; [exact sections_distinct_ok|]. left. apply raw_missing_test_off. }
     destruct (filter (fun s => negb (present q (map ekey es) (fst s))) (preset_sections reps)) as [|m ms'] eqn:Hms.
     + assert (Hr : init_from q (preset_sections reps) E (RBlock es) = AlreadyComplete) by (unfold init_from; now rewrite Hms).
       rewrite Hr. cbn [result_file]. rewrite HE, Hr. cbn [result_file].
